@@ -248,7 +248,9 @@ class Puppet:
         """source line -> first executed statement-row address of that line (post-prologue), for
         lines that the native execution actually reaches."""
         res = {}
-        for x in self.X:
+        for n, x in enumerate(self.X):
+            if n + 1 >= self.tail:
+                break                      # the final report (calls into std) is not a place for breakpoints
             if x["st"] and x["pe"] and x["ln"] > 0:
                 res.setdefault(x["ln"], x["pc"])
         return res
